@@ -56,7 +56,9 @@ func TestVerifBoundedC16OrderIndependence(t *testing.T) {
 		mode      SizeEstimationMode
 		maxLinks  int
 	}
-	cfgs := []cfg{{"hamt", 0, SizeEstimationLinks, 0}, {"dynamic", 1 << 20, SizeEstimationLinks, 0}}
+	// "hamt-reloaded": a pure HAMT that is written out and loaded again from its root node after
+	// every edit, so that removals meet child shards and entries that have never been read
+	cfgs := []cfg{{"hamt", 0, SizeEstimationLinks, 0}, {"hamt-reloaded", 0, SizeEstimationLinks, 0}, {"dynamic", 1 << 20, SizeEstimationLinks, 0}}
 	// thresholds swept across every basic/HAMT boundary the 6 entries can reach (entries are 35..90 bytes each)
 	for th := 60; th <= 460; th += 5 {
 		for _, m := range []SizeEstimationMode{SizeEstimationLinks, SizeEstimationBlock} {
@@ -72,7 +74,7 @@ func TestVerifBoundedC16OrderIndependence(t *testing.T) {
 	cases, fails := 0, 0
 	for ci, c := range cfgs {
 		build := func(ds ipld.DAGService) (Directory, error) {
-			if c.kind == "hamt" {
+			if c.kind == "hamt" || c.kind == "hamt-reloaded" {
 				return NewHAMTDirectory(ds, 0, WithMaxHAMTFanout(8))
 			}
 			opts := []DirectoryOption{WithMaxHAMTFanout(8), WithSizeEstimationMode(c.mode)}
@@ -124,6 +126,18 @@ func TestVerifBoundedC16OrderIndependence(t *testing.T) {
 				trace = append(trace, fmt.Sprintf("%v:%.8s", e.add, e.name))
 				if err != nil {
 					bad = err.Error()
+				}
+				if bad == "" && c.kind == "hamt-reloaded" {
+					nd, err := d.GetNode()
+					if err == nil {
+						err = ds.Add(ctx, nd)
+					}
+					if err == nil {
+						d, err = NewHAMTDirectoryFromNode(ds, nd)
+					}
+					if err != nil {
+						bad = "reload: " + err.Error()
+					}
 				}
 			}
 			for _, i := range perms[pi] {
